@@ -3,7 +3,7 @@
 // oracle for the property.
 //
 // op line (one distributed case):
-//     np=<P> num=<d|c|s> ord=<a|f> del=<m|r> [re=<0|s|d>] : <g>=<h>,<h>,...;<g>=<h>,...;...
+//     np=<P> num=<d|c|s|l> ord=<a|f> del=<m|r> [re=<0|s|d>] : <g>=<h>,<h>,...;<g>=<h>,...;...
 //   one segment per global index g (decimal, distinct); holder token <h> = <rank><attr><status>
 //     attr    o|v|c        owner / overlap / copy  (enum values 0/1/2)
 //     status  k  held at rebuild time and kept
@@ -13,23 +13,27 @@
 //             n  not held before the sync (the copy exists only in other processes' belief)
 //   num: d = IndicesSyncer::sync() (DefaultNumberer: new local index = size_t max, printed M),
 //        c = sync(numberer, fixed) with the user numberer g -> 1000+g;
-//        s = sync(numberer, fixed) with a numberer object that has state: it hands out 2000, 2001, ... and counts its
-//            calls (the same object is used for the second round); the numbers depend on the order in which the
-//            messages are processed and are printed as S (the oracle checks that they are distinct and from the block
-//            handed out, and that the numberer was called once per added index);
-//        ord: a = arrival order, f = fixed order (only with num=c|s);  del: how status d is carried out:
+//        s|l = sync(numberer, fixed) with a numberer object that has state and counts its calls (the same object is
+//            used for the second round): s hands out 2000, 2001, ...; l recycles the slots (local numbers) of the
+//            copies this process deleted, front of the free list first, then 3000, 3001, ... (copies deleted again for
+//            the second round give their slots back).  Which index gets which number depends on the order in which
+//            the messages are processed, so these numbers are printed as S; the oracle checks that they are distinct
+//            and come from the numberer's pool, and that it was called once per added index; calls, length of the free
+//            list and next fresh number are printed after each sync (K, F, X) and compared with the model;
+//        ord: a = arrival order, f = fixed order (only with num=c|s|l);  del: how status d is carried out:
 //        m = RemoteIndexListModifier<.,.,true>::remove + modifier.repairLocalIndexPointers(), r = SLList modify
 //        iterators + Dune::repairLocalIndexPointers as dune/common/parallel/test/syncertest.cc does;
 //        re (second round, default 0): s = sync again with a new IndicesSyncer object; d = first delete the status-d
 //        copies again (those the first sync restored), then sync again.
 // answer of one rank:  A(<state before the first sync>) B(<state after it>) [C(<state after the second sync>)]
-//   state = I[<g><attr>:<local>,...] N<q>[<g><ownattr><remoteattr>@<position in I>,...] ... [S<0|1>] [K<numberer calls>]
-//   (S only after a sync, K only for num=s)
+//   state = I[<g><attr>:<local>,...] N<q>[<g><ownattr><remoteattr>@<position in I>,...] ... [S<0|1>] [K<calls> F<free slots> X<next fresh>]
+//   (S only after a sync, K F X only for num=s|l)
 #include <config.h>
 
 #include <mpi.h>
 
 #include <algorithm>
+#include <deque>
 #include <list>
 #include <map>
 #include <set>
@@ -59,7 +63,8 @@ static std::string attrStr(int a) { return (a >= 0 && a < 3) ? std::string(1, AT
 struct Tok { int rank, g, attr; char st; };
 struct Case {
   int np = 0;
-  char num = 'd';   // d default numberer, c pure user numberer, s numberer object with state
+  char num = 'd';   // d default numberer, c pure user numberer, s|l numberer objects with state (counter / free list)
+  bool stateful() const { return num == 's' || num == 'l'; }
   bool fixed = false;
   char del = 'r';
   char re = '0';    // second round: 0 none, s sync again, d delete the status-d copies again and sync again
@@ -75,7 +80,7 @@ static Case parse(const std::string& line) {
   bool hn = false, hnum = false, hord = false, hdel = false, hre = false;
   for (auto& w : words(head)) {
     if (w.rfind("np=", 0) == 0 && !hn) { c.np = std::atoi(w.c_str() + 3); hn = true; }
-    else if ((w == "num=d" || w == "num=c" || w == "num=s") && !hnum) { c.num = w[4]; hnum = true; }
+    else if ((w == "num=d" || w == "num=c" || w == "num=s" || w == "num=l") && !hnum) { c.num = w[4]; hnum = true; }
     else if (w == "ord=a" && !hord) { c.fixed = false; hord = true; }
     else if (w == "ord=f" && !hord) { c.fixed = true; hord = true; }
     else if ((w == "del=m" || w == "del=r") && !hdel) { c.del = w[4]; hdel = true; }
@@ -197,10 +202,19 @@ static World originalState(const Case& c) {
 struct CustomNumberer {
   std::size_t operator()(const int& g) { return (std::size_t)(1000 + g); }
 };
-static const std::size_t COUNT_BASE = 2000;
-struct CountingNumberer {
+// numberer object with state: recycles the slots of its free list (front first), then hands out fresh numbers
+struct SlotNumberer {
+  std::deque<std::size_t> free;
+  std::size_t next = 2000;
   std::size_t calls = 0;
-  std::size_t operator()(const int&) { return COUNT_BASE + calls++; }
+  std::set<std::size_t> pool;  // every number it may ever hand out from the free list (for the oracle)
+  std::size_t first = 2000;    // first fresh number
+  std::size_t operator()(const int&) {
+    ++calls;
+    if (!free.empty()) { std::size_t v = free.front(); free.pop_front(); return v; }
+    return next++;
+  }
+  bool mayHaveHandedOut(std::size_t v) const { return pool.count(v) || (v >= first && v < next); }
 };
 
 struct ModHolder {
@@ -252,9 +266,9 @@ static void deleteLocalCopies(PIS& is, RI& ri, const std::set<int>& gs, char met
   }
 }
 
-static std::string localStr(std::size_t l, bool hideCounted) {
+static std::string localStr(std::size_t l, bool hide) {
+  if (hide) return "S";
   if (l == std::numeric_limits<std::size_t>::max()) return "M";
-  if (hideCounted && l >= COUNT_BASE) return "S";
   return std::to_string(l);
 }
 
@@ -264,10 +278,9 @@ struct Observed {
 };
 
 // canonical text of this rank's state; everything that contradicts the expected state `w` goes to `bad`
-static std::string observe(const Case& c, PIS& is, RI& ri, const RankState& w, bool afterSync, long calls,
+static std::string observe(const Case& c, PIS& is, RI& ri, const RankState& w, bool afterSync, const SlotNumberer& numb,
                            const char* tag, std::ostringstream& bad0, Observed& ob) {
   std::ostringstream os, bad;
-  bool hide = c.num == 's';
   std::set<std::size_t> counted;
   {
     os << "I[";
@@ -279,21 +292,23 @@ static std::string observe(const Case& c, PIS& is, RI& ri, const RankState& w, b
       ob.posOf[&pr] = k;
       if (!first) os << ",";
       first = false;
+      auto e = w.held.find(pr.global());
+      // a number assigned by a numberer object depends on the processing order: not printed
+      bool hide = c.stateful() && e != w.held.end() && w.local.at(pr.global()) < 0;
       os << pr.global() << attrStr(pr.local().attribute()) << ":" << localStr(pr.local().local(), hide);
       if (havePrev && !(prev < pr.global())) bad << " index set not strictly ascending at " << pr.global() << ";";
       prev = pr.global();
       havePrev = true;
-      auto e = w.held.find(pr.global());
       if (e == w.held.end()) bad << " index " << pr.global() << " present but nobody held or announced it;";
       else {
         if (e->second != (int)pr.local().attribute())
           bad << " index " << pr.global() << " has attribute " << attrStr(pr.local().attribute()) << " expected " << attrStr(e->second) << ";";
         long wl = w.local.at(pr.global());
         std::size_t got = pr.local().local();
-        if (wl < 0 && c.num == 's') {
-          // a number handed out by the counting numberer: from its block, never twice
-          if (got < COUNT_BASE || got >= COUNT_BASE + (std::size_t)calls)
-            bad << " index " << pr.global() << " local number " << got << " was not handed out by the numberer (" << calls << " calls);";
+        if (wl < 0 && c.stateful()) {
+          // a number handed out by the numberer object: from its pool, never twice
+          if (!numb.mayHaveHandedOut(got))
+            bad << " index " << pr.global() << " local number " << got << " was not handed out by the numberer (" << numb.calls << " calls);";
           if (!counted.insert(got).second) bad << " local number " << got << " given to two indices;";
         } else {
           std::size_t expectLocal = wl >= 0 ? (std::size_t)wl
@@ -358,7 +373,7 @@ static std::string observe(const Case& c, PIS& is, RI& ri, const RankState& w, b
   if (afterSync) {
     os << " S" << (ri.isSynced() ? 1 : 0);
     if (!ri.isSynced()) bad << " remote indices not in sync after sync();";
-    if (c.num == 's') os << " K" << calls;
+    if (c.stateful()) os << " K" << numb.calls << " F" << numb.free.size() << " X" << numb.next;
   }
   if (!bad.str().empty()) bad0 << " [" << tag << "]" << bad.str();
   return os.str();
@@ -454,21 +469,30 @@ static Result exec(const std::string& line) {
 
   World pre = preState(c), want = closure(pre);
   std::ostringstream os, bad;
-  CountingNumberer counting;
+  SlotNumberer counting;
+  if (c.num == 'l') {
+    counting.next = counting.first = 3000;
+    // the slots of the copies this process deleted (ascending global index)
+    std::size_t n = 0;
+    for (auto& t : mine) {
+      if (t.st == 'd') { counting.free.push_back(n); counting.pool.insert(n); }
+      if (t.st == 'k' || t.st == 'd') ++n;
+    }
+  }
   // the ranks enter the sync at different times (seeded by the op line), so that the messages of the neighbours
   // arrive in varying orders and fast ranks are already in their next sync while slow ones still receive
   uint64_t jitterSeed = 1469598103934665603ull;
   for (char ch : line) jitterSeed = (jitterSeed ^ (unsigned char)ch) * 1099511628211ull;
   Rng jitter(jitterSeed * 64 + (uint64_t)rank);
   auto doSync = [&]() {
-    static const int DELAY[] = {0, 0, 0, 0, 50, 150, 400, 1000};
+    static const int DELAY[] = {0, 0, 0, 100, 300, 600, 1000, 1500};
     int d = DELAY[jitter.below(8)];
     if (d && c.np > 1) usleep(d);
     Dune::IndicesSyncer<PIS> syncer(is, ri);
     if (c.num == 'c') {
       CustomNumberer num;
       syncer.sync(num, c.fixed);
-    } else if (c.num == 's')
+    } else if (c.stateful())
       syncer.sync(counting, c.fixed);
     else
       syncer.sync();
@@ -484,15 +508,15 @@ static Result exec(const std::string& line) {
   // 3. the state before the sync (ties the model's consistent state / deletion / announcement to the real code)
   {
     Observed ob;
-    os << "A(" << observe(c, is, ri, pre[rank], false, 0, "before", bad, ob) << ")";
+    os << "A(" << observe(c, is, ri, pre[rank], false, counting, "before", bad, ob) << ")";
   }
   // 4. the operation under test
   doSync();
   long expectCalls = inserted(pre, want);
   {
     Observed ob;
-    os << " B(" << observe(c, is, ri, want[rank], true, (long)counting.calls, "sync", bad, ob) << ")";
-    if (c.num == 's' && (long)counting.calls != expectCalls)
+    os << " B(" << observe(c, is, ri, want[rank], true, counting, "sync", bad, ob) << ")";
+    if (c.stateful() && (long)counting.calls != expectCalls)
       bad << " [sync] numberer called " << counting.calls << " times for " << expectCalls << " new indices;";
     if (pureDeletion) checkRestored(c, rank, ri, ob, "sync", bad);
   }
@@ -501,7 +525,7 @@ static Result exec(const std::string& line) {
   int orderDiffers = 0;
   if (c.num == 's' && !c.fixed) {
     std::map<int, std::size_t> byRank;
-    std::size_t next = COUNT_BASE;
+    std::size_t next = counting.first;
     for (int p = 0; p < c.np; ++p) {
       auto k = pre[p].known.find(rank);
       if (k == pre[p].known.end()) continue;
@@ -522,14 +546,18 @@ static Result exec(const std::string& line) {
       std::set<int> gs2;
       for (auto& g : delGs) if (want[rank].held.count(g)) gs2.insert(g);
       std::set<int> present;
-      for (auto it = is.begin(); it != is.end(); ++it) if (gs2.count(it->global())) present.insert(it->global());
+      for (auto it = is.begin(); it != is.end(); ++it)
+        if (gs2.count(it->global())) {
+          present.insert(it->global());
+          if (c.num == 'l') { counting.free.push_back(it->local().local()); counting.pool.insert(it->local().local()); }
+        }
       deleteLocalCopies(is, ri, present, c.del);
     }
     doSync();
     expectCalls += inserted(pre2, want2);
     Observed ob;
-    os << " C(" << observe(c, is, ri, want2[rank], true, (long)counting.calls, "second sync", bad, ob) << ")";
-    if (c.num == 's' && (long)counting.calls != expectCalls)
+    os << " C(" << observe(c, is, ri, want2[rank], true, counting, "second sync", bad, ob) << ")";
+    if (c.stateful() && (long)counting.calls != expectCalls)
       bad << " [second sync] numberer called " << counting.calls << " times for " << expectCalls << " new indices;";
     if (pureDeletion) checkRestored(c, rank, ri, ob, "second sync", bad);
   }
@@ -566,6 +594,27 @@ static Result exec(const std::string& line) {
       for (auto& a : announced) if (a.second >= 2) ++several;
     }
     for (auto& t : c.toks) if (t.st == 'd' && !want[t.rank].held.count(t.g)) ++lost;
+    // some rank is told about indices it still holds in descending order across the messages of ascending sources
+    {
+      bool desc = false;
+      for (int q = 0; q < c.np; ++q) {
+        bool have = false;
+        int maxSeen = 0;
+        for (int p = 0; p < c.np; ++p) {
+          auto k = pre[p].known.find(q);
+          if (k == pre[p].known.end()) continue;
+          bool haveHere = false;
+          int maxHere = 0;
+          for (auto& ga : k->second) {
+            if (!pre[q].held.count(ga.first)) continue;
+            if (have && ga.first < maxSeen) desc = true;
+            if (!haveHere || ga.first > maxHere) { maxHere = ga.first; haveHere = true; }
+          }
+          if (haveHere && (!have || maxHere > maxSeen)) { maxSeen = maxHere; have = true; }
+        }
+      }
+      if (desc) stat("held_indices_reannounced_in_descending_order_across_messages");
+    }
     stat("globals", (long)D.size());
     stat("copies_deleted", del);
     stat("owner_copies_deleted", delOwner);
@@ -575,7 +624,7 @@ static Result exec(const std::string& line) {
     stat("indices_announced_by_several_neighbours", several);
     stat("deleted_everywhere_not_restored", lost);
     stat("new_neighbours", newnb);
-    stat(std::string("num_") + (c.num == 'c' ? "custom" : c.num == 's' ? "stateful" : "default"));
+    stat(std::string("num_") + (c.num == 'c' ? "custom" : c.num == 's' ? "counting_object" : c.num == 'l' ? "freelist_object" : "default"));
     stat(std::string("order_") + (c.fixed ? "fixed" : "arrival"));
     if (del) stat(std::string("delete_via_") + (c.del == 'm' ? "modifier" : "sllist"));
     if (c.re == 's') stat("second_round_sync_again");
@@ -592,9 +641,9 @@ static std::string gen(Rng& r, long, const Args& a) {
   MPI_Comm_size(MPI_COMM_WORLD, &size);
   bool thorough = a.tier == "thorough";
   std::ostringstream os;
-  int nk = (int)r.below(8);
-  char num = nk < 3 ? 'd' : nk < 6 ? 'c' : 's';
-  bool fixed = num != 'd' && r.coin(1, num == 's' ? 2 : 3);
+  int nk = (int)r.below(10);
+  char num = nk < 3 ? 'd' : nk < 5 ? 'c' : nk < 8 ? 's' : 'l';
+  bool fixed = num != 'd' && r.coin(1, num == 'c' ? 3 : 2);
   int rk = (int)r.below(20);
   char re = rk < 12 ? '0' : rk < 15 ? 's' : 'd';
   os << "np=" << size << " num=" << num << " ord=" << (fixed ? "f" : "a") << " del=" << (r.coin() ? "m" : "r");
@@ -605,6 +654,10 @@ static std::string gen(Rng& r, long, const Args& a) {
   if (r.coin(1, 12)) nG = (int)r.below(2);
   int style = (int)r.below(4);   // 0: one owner, rest overlap/copy; 1: + sometimes ownerless; 2: arbitrary; 3: all equal attr
   bool chain = size >= 3 && r.coin(1, 3);  // sparse neighbour graph: indices shared by consecutive ranks only
+  // hub: one rank shares every index with one other rank, the lower the rank the higher the global index, so that
+  // the messages of its neighbours (taken by ascending rank) re-announce indices in descending order
+  bool hub = size >= 3 && !chain && r.coin(1, 5);
+  int hubRank = (int)r.below(size);
   int pdel = r.pick(std::vector<int>{0, 25, 50, 50, 75, 100});
   bool delOwners = r.coin(1, 6);  // the sync does not look at the attribute values: owner copies may be deleted as well
   int padd = r.coin(1, 3) ? r.pick(std::vector<int>{15, 30, 60}) : 0;
@@ -628,6 +681,14 @@ static std::string gen(Rng& r, long, const Args& a) {
         if (r.coin()) for (int q : hs) if (r.coin(1, 3)) late.insert(q);
         std::sort(hs.begin(), hs.end());
       }
+    } else if (hub) {
+      std::vector<int> others;
+      for (int p = 0; p < size; ++p) if (p != hubRank) others.push_back(p);
+      int k = (int)((long)(nG - 1 - i) * (long)others.size() / (long)nG);
+      hs.push_back(hubRank);
+      hs.push_back(others[k]);
+      if (r.coin(1, 5)) { int p = others[r.below(others.size())]; if (p != others[k]) hs.push_back(p); }
+      std::sort(hs.begin(), hs.end());
     } else if (kind < 2 || size == 1) hs.push_back((int)r.below(size));
     else if (kind < 4) { for (int p = 0; p < size; ++p) hs.push_back(p); }
     else {
